@@ -19,7 +19,7 @@ from vmon.libutil import monitored
 
 LEVEL = "exploration"
 SHARDS = {"quick": 16, "thorough": 16}
-MUST = ["accessor.cursor_moved_first", "accessor.order0", "accessor.order1", "accessor.order2", "create.contract_evaluations", "accessor.checks", "reframe.checks", "reframe.socket", "reframe.file-chunked", "reframe.file-short-reads", "reframe.bytes-prefixed", "reframe.twice", "reframe.beyond_20MB", "reframe.train", "reframe.train/bytesio-written", "reframe.train/file-read-size-on-packet-border", "reframe.train/socket-two-packets-per-delivery", "reframe.train/cut-in-last-packet", "reframe.equal_records_grid", "reframe.train/datagram-socket", "reframe.train/two-generators-requested-up-front", "reframe.train/equal-prefixed-records", "reframe.train/socket-two-packets-per-delivery/show_progress", "reject.checks", "word1.values", "word2.values"]
+MUST = ["accessor.cursor_moved_first", "accessor.order0", "accessor.order1", "accessor.order2", "create.contract_evaluations", "accessor.checks", "reframe.checks", "reframe.socket", "reframe.file-chunked", "reframe.file-short-reads", "reframe.bytes-prefixed", "reframe.twice", "reframe.beyond_20MB", "reframe.train", "reframe.train/bytesio-written", "reframe.train/bytesio-appended-between-framings", "reframe.train/file-read-size-on-packet-border", "reframe.train/socket-two-packets-per-delivery", "reframe.train/cut-in-last-packet", "reframe.equal_records_grid", "reframe.train/datagram-socket", "reframe.train/two-generators-requested-up-front", "reframe.train/equal-prefixed-records", "reframe.train/socket-two-packets-per-delivery/show_progress", "reject.checks", "word1.values", "word2.values"]
 RULE = ("create_ccsds_packet is called on enumerated field values; a postcondition compares the bytes with the "
         "model's bit-string layout (3+1+1+11+2+14+16 bits, length field = len(data)-1) and the harness compares "
         "every accessor, re-frames the packet through ccsds_generator (bytes, BytesIO, and in rotation: chunked file reads, short reads, a "
@@ -141,7 +141,7 @@ def check_packet(ctx, vals, data, reframe=True):
                    ("file-short-reads", lambda: sources_mod.RecordingFile(rec, "short", rr), {"skip_header_bytes": k, "buffer_read_size_bytes": max(1, len(rec) // 2)}),
                    ("socket", lambda: sources_mod.ScriptedSocket(sources_mod.cut(rec, sizes), closed_by_peer=True), {"skip_header_bytes": k}),
                    ("bytes-prefixed", lambda: rec, {"skip_header_bytes": k}),
-                   ("twice", lambda: raw + raw, {})]
+                   ("twice", (lambda: raw + raw) if (n // 5) % 2 else (lambda: packets.RawPacketData(raw + raw)), {})]   # ... also as the bytes subclass the framer itself yields
         for kind, mk, kw in sources[:2] + [sources[2 + n % 5]]:
             out = []
             src = mk()
@@ -261,6 +261,12 @@ def check_packet(ctx, vals, data, reframe=True):
                 kind = "train/bytesio-partly-read"
             for ps in range(passes):
                 out = []
+                if ps == 1:
+                    # between the two framings of the same file object the writer appends one more packet
+                    src.seek(0, 2)
+                    src.write(raw)
+                    train = train + [raw]
+                    ctx.count("reframe.train/bytesio-appended-between-framings")
                 with contextlib.redirect_stdout(io.StringIO()):
                     g = packets.ccsds_generator(src, **kw)
                     s = monitored(lambda: [out.append(x) for x in itertools.islice(g, 5)])
